@@ -23,7 +23,7 @@ FFP = 'mininec.Far_Field_Pattern.__init__'
 
 
 def _ffp_call(ctx):
-    f = ctx.func(FAR)
+    f = ctx.flat(FAR)           # compute_far_field with its private helpers written back in place
     asg = assigns_to_attr(f, 'self.far_field')
     calls = [a for a in asg if isinstance(a.value, ast.Call) and
              isinstance(a.value.func, ast.Name) and a.value.func.id == 'Far_Field_Pattern']
@@ -46,15 +46,18 @@ def _ffp_call(ctx):
 
 
 def find_integrator(ctx, entry_qual):
-    """the function that holds the loop over self.image_iter(): the entry point itself or a helper
-    method reachable from it through self-calls"""
+    """the function that holds the loop over self.image_iter(): the entry point with its private helpers
+    inlined, or a (non-private) helper method reachable from it through self-calls"""
     m = ctx.model
     prog = ctx.program
     entry = m.func(entry_qual)
+    flat = ctx.flat(entry)
+    if any(isinstance(l, ast.For) and norm(l.iter) == 'self.image_iter()' for l in loops_in(flat.node)):
+        return [flat]
     seen = prog.closure([entry], edge_filter=lambda e: e.kind == 'call' and e.callee.cls is entry.cls)
     cands = []
     for q in seen:
-        g = m.funcs[q]
+        g = ctx.flat(m.funcs[q])
         if any(isinstance(l, ast.For) and norm(l.iter) == 'self.image_iter()' for l in loops_in(g.node)):
             cands.append(g)
     return cands
